@@ -6,7 +6,7 @@
 -/
 import Simpleline.Lemmas.InputFrame
 
-namespace Simpleline
+namespace Simpleline.Input
 
 /-! ### `startRequest` -/
 
@@ -52,10 +52,10 @@ theorem startRequest_screens (c : Cfg) (ih : Nat) (requester : Src) (text : Str)
 /-! ### `enqueue` only looks at, and only changes, the loop state and the trace -/
 
 /-- the part of a configuration `enqueue_signal` works on -/
-def Cfg.LT (c : Cfg) : LoopSt × List Tr := (c.L, c.tr)
+def _root_.Simpleline.Cfg.LT (c : Cfg) : LoopSt × List Tr := (c.L, c.tr)
 
 /-- the scratch registers holding callback results -/
-def Cfg.rets (c : Cfg) : Bool × Bool × Ret × Str × UAction :=
+def _root_.Simpleline.Cfg.rets (c : Cfg) : Bool × Bool × Ret × Str × UAction :=
   (c.retSetup, c.retPromptNone, c.retInput, c.retKey, c.retAction)
 
 def enqLT (lt : LoopSt × List Tr) (s : Sig) : LoopSt × List Tr :=
@@ -266,4 +266,4 @@ theorem requested_of_newIH (c : Cfg) (source : Src) (skip : Bool) (cb : Option N
           write_inputStack, write_processing, write_out, write_readers, write_screens]) <;>
         first | rfl | (simpa [newIH, push] using hp)
 
-end Simpleline
+end Simpleline.Input
